@@ -284,6 +284,20 @@ impl Segment {
     pub async fn persist(&mut self) -> Result<(), IggyError> {
         info!("Saving segment with start offset: {} for partition with ID: {} for topic with ID: {} and stream with ID: {}",
             self.start_offset, self.partition_id, self.topic_id, self.stream_id);
+        // An index file without its log file was left behind by a server that stopped in the middle
+        // of deleting a segment with the same start offset. A new segment must not inherit it.
+        if !file::exists(&self.log_path).await.unwrap_or(false)
+            && file::exists(&self.index_path).await.unwrap_or(false)
+        {
+            warn!(
+                "Removing the index file {} left behind by a deleted segment.",
+                self.index_path
+            );
+            file::remove(&self.index_path)
+                .await
+                .with_error_context(|error| format!("Failed to remove the index file of a deleted segment for {self}. {error}"))
+                .map_err(|_| IggyError::CannotDeleteFile)?;
+        }
         self.initialize_writing().await?;
         self.initialize_reading().await?;
         info!("Saved segment log file with start offset: {} for partition with ID: {} for topic with ID: {} and stream with ID: {}",
